@@ -220,6 +220,12 @@ def call_simplify(mi, samples, opts, api, record_provenance, as_array):
     if samples is not None and as_array:
         arg = np.array(samples, dtype=np.int32)
     tc = to_tables(mi)
+    # the deprecated alias filter_zero_mutation_sites must behave exactly like filter_sites on both entry points
+    # (chosen deterministically from the inputs so that the case descriptor stays the replay)
+    if "filter_sites" in kw and (len(mi.edges) + len(mi.sites) + (0 if samples is None else len(samples))) % 5 == 0:
+        kw["filter_zero_mutation_sites"] = kw.pop("filter_sites")
+    import warnings
+    warnings.simplefilter("ignore", FutureWarning)
     if api == "tables":
         nm = tc.simplify(arg, record_provenance=record_provenance, **kw)
         out = tc
